@@ -26,6 +26,98 @@ TABLES = pathlib.Path(__file__).resolve().parent.parent / "tables"
 
 
 # --------------------------------------------------------------------------- R1
+def _u(e):
+    return ast.unparse(e) if e is not None else ""
+
+
+def _for_target(st, nm, iter_pred, pos=None):
+    if not isinstance(st, ast.For) or not iter_pred(st.iter):
+        return False
+    t = st.target
+    if pos is None:
+        return isinstance(t, ast.Name) and t.id == nm
+    return isinstance(t, ast.Tuple) and pos < len(t.elts) and isinstance(t.elts[pos], ast.Name) and t.elts[pos].id == nm
+
+
+def _unpack_of(v, fmt):
+    return v is not None and any(isinstance(x, ast.Call) and call_name(x) == "unpack" and x.args and isinstance(x.args[0], ast.Constant) and
+                                 x.args[0].value == fmt for x in ast.walk(v))
+
+
+# roles of the locals of the O2Jam reader functions (sa/normal.py: with_roles): the rules below name them by role
+O2J_ROLES = {
+    "read_meta": (
+        ("meta_fields", lambda n, v, st, node: isinstance(v, ast.List) and not v.elts and any(
+            isinstance(x, ast.Subscript) and isinstance(x.value, ast.Subscript) and isinstance(x.value.value, ast.Name) and x.value.value.id == n
+            for x in ast.walk(node))),
+        ("fmt", lambda n, v, st: _for_target(st, n, lambda it: "BYTE_FORMATS" in _u(it), 0)),
+        ("size", lambda n, v, st: _for_target(st, n, lambda it: "BYTE_FORMATS" in _u(it), 1)),
+        ("count", lambda n, v, st: _for_target(st, n, lambda it: "BYTE_FORMATS" in _u(it), 2)),
+        ("fmt_size", lambda n, v, st: v is not None and "size" in _u(v) and "count" in _u(v) and isinstance(st, ast.Assign)),
+        ("ix_start", lambda n, v, st: isinstance(st, ast.AugAssign) and _u(v) == "fmt_size"),
+        ("meta_field", lambda n, v, st, node: isinstance(v, ast.List) and not v.elts and any(
+            isinstance(x, ast.Call) and call_name(x) == "append" and _u(x.func.value) == "meta_fields" and x.args and _u(x.args[0]) == n
+            for x in ast.walk(node))),
+    ),
+    "read_event_packages": (
+        ("lvls", lambda n, v, st, node: isinstance(v, ast.List) and not v.elts and any(isinstance(x, ast.Return) and _u(x.value) == n for x in ast.walk(node))),
+        ("data_q", lambda n, v, st: isinstance(v, ast.Call) and call_name(v) == "deque"),
+        ("hold_buffer", lambda n, v, st: isinstance(v, ast.Dict) and not v.keys),
+        ("lvl_pkg_count", lambda n, v, st: _for_target(st, n, lambda it: isinstance(it, ast.Name) and it.id == "lvl_pkg_counts")),
+        ("lvl_pkg", lambda n, v, st: isinstance(v, ast.BinOp) and isinstance(v.op, ast.Mult) and "None" in _u(v)),
+        ("pkg_e", lambda n, v, st: _for_target(st, n, lambda it: isinstance(it, ast.Call) and call_name(it) == "range" and "lvl_pkg_count" in _u(it))),
+        ("pkg", lambda n, v, st: isinstance(v, ast.Call) and call_name(v) == "O2JEventPackage"),
+        ("pkg_data", lambda n, v, st, node: isinstance(v, ast.List) and not v.elts and any(
+            isinstance(x, ast.Subscript) and _u(x.value) == n and isinstance(x.slice, ast.Slice) for x in ast.walk(node))),
+        ("event_count", lambda n, v, st: _unpack_of(v, "<h") and isinstance(st, ast.Assign) and isinstance(st.targets[0], ast.Name)),
+        ("events_data", lambda n, v, st, node: any(isinstance(x, ast.Call) and call_name(x) in ("read_events_note", "read_events_bpm") and x.args and
+                                                  _u(x.args[0]) == n for x in ast.walk(node)) and v is not None),
+    ),
+    "read_events_note": (
+        ("notes", lambda n, v, st, node: isinstance(v, ast.List) and not v.elts and any(isinstance(x, ast.Return) and _u(x.value) == n for x in ast.walk(node))),
+        ("event_count", lambda n, v, st: isinstance(v, ast.BinOp) and isinstance(v.op, ast.FloorDiv) and _u(v.left) == "len(data)"),
+        ("i", lambda n, v, st: _for_target(st, n, lambda it: _u(it) == "range(event_count)")),
+        ("enabled", lambda n, v, st: _unpack_of(v, "<h")),
+        ("sub_measure", lambda n, v, st: isinstance(v, ast.BinOp) and "curr_measure" in _u(v) and "event_count" in _u(v)),
+        ("volume_pan", lambda n, v, st: _unpack_of(v, "<s")),
+        ("note_type", lambda n, v, st: _unpack_of(v, "<c")),
+        ("volume", lambda n, v, st: isinstance(v, ast.BinOp) and isinstance(v.op, ast.FloorDiv) and _u(v.left) == "volume_pan"),
+        ("pan", lambda n, v, st: isinstance(v, ast.BinOp) and isinstance(v.op, ast.Mod) and _u(v.left) == "volume_pan"),
+        ("hit", lambda n, v, st: isinstance(v, ast.Call) and call_name(v) == "O2JHit"),
+        ("hold", lambda n, v, st: isinstance(v, ast.Call) and (call_name(v) == "O2JHold" or (call_name(v) == "pop" and "hold_buffer" in _u(v.func)))),
+    ),
+    "read_events_bpm": (
+        ("event_count", lambda n, v, st: isinstance(v, ast.BinOp) and isinstance(v.op, ast.FloorDiv) and _u(v.left) == "len(data)"),
+        ("bpms", lambda n, v, st, node: isinstance(v, ast.List) and not v.elts and any(isinstance(x, ast.Return) and _u(x.value) == n for x in ast.walk(node))),
+        ("i", lambda n, v, st: _for_target(st, n, lambda it: _u(it) == "range(event_count)")),
+        ("bpm", lambda n, v, st: _unpack_of(v, "<f") or (isinstance(v, ast.Call) and call_name(v) == "O2JBpm")),
+    ),
+    "read_pkgs": (
+        ("events", lambda n, v, st: isinstance(v, ast.ListComp) and len(v.generators) == 2 and ".events" in _u(v.generators[1].iter)),
+        ("notes", lambda n, v, st: isinstance(v, ast.ListComp) and _u(v.generators[0].iter) == "events" and "not isinstance" in _u(v.generators[0].ifs[0] if v.generators[0].ifs else None)),
+        ("bpms", lambda n, v, st: isinstance(v, ast.ListComp) and _u(v.generators[0].iter) == "events" and v.generators[0].ifs and
+         _u(v.generators[0].ifs[0]).startswith("isinstance")),
+        ("note_measures", lambda n, v, st: v is not None and (("tail_measure" in _u(v) and isinstance(v, ast.BinOp)) or (isinstance(v, ast.Call) and call_name(v) == "sorted"))),
+        ("note_measure_dict", lambda n, v, st, node: isinstance(v, ast.Dict) and not v.keys and any(
+            isinstance(x, ast.Subscript) and _u(x.value) == n and isinstance(x.ctx, ast.Store) for x in ast.walk(node))),
+        ("note_measure", lambda n, v, st: _for_target(st, n, lambda it: _u(it) == "note_measures")),
+        ("bpm_val", lambda n, v, st: isinstance(v, ast.Name) and v.id == "init_bpm"),
+        ("bpm_ix", lambda n, v, st: isinstance(st, ast.AugAssign) and isinstance(v, ast.Constant) and v.value == 1 and isinstance(st.op, ast.Add)),
+        ("bpm", lambda n, v, st: (isinstance(v, ast.Subscript) and _u(v.value) == "bpms") or (isinstance(v, ast.Call) and call_name(v) == "popleft") or
+         _for_target(st, n, lambda it: isinstance(it, ast.Subscript) and _u(it.value) == "bpms")),
+        ("offset", lambda n, v, st: isinstance(st, ast.AugAssign) and v is not None and "min_to_msec" in _u(v)),
+        ("measure", lambda n, v, st: isinstance(v, ast.Attribute) and _u(v) == "bpm.measure"),
+        ("note", lambda n, v, st: _for_target(st, n, lambda it: _u(it) == "notes")),
+    ),
+}
+
+
+def _o2j_fn(ctx, q: str, **kw):
+    from ..normal import with_roles
+    return with_roles(ctx.M.nfn(q, **kw), O2J_ROLES.get(q.rsplit(".", 1)[1], ()))
+
+
+
 def _resolve_local(fn_node, e):
     """a name bound once in the function -> its value (one step)"""
     if isinstance(e, ast.Name):
@@ -68,7 +160,7 @@ def rule_r1(ctx) -> List[R.Inst]:
     fields = [f for f in M.dataclass_fields(METACLS)]
     names = [f[0] for f in fields]
     # assignments self.<field> = meta_fields[k]...
-    rm = M.fn(METACLS + ".read_meta")
+    rm = _o2j_fn(ctx, METACLS + ".read_meta")
     assigned: Dict[int, Tuple[str, ast.AST]] = {}
     dup = []
     for n in walk_no_nested(rm.node):
@@ -186,7 +278,7 @@ def rule_r2(ctx) -> List[R.Inst]:
     rid = "C07.R2"
     insts = []
     # package header
-    fn = M.nfn(PKG + ".read_event_packages")
+    fn = _o2j_fn(ctx, PKG + ".read_event_packages")
     file = M.mods[fn.mod].rel
     want = {"measure": ("<i", 0, 4), "channel": ("<h", 4, 6), "event_count": ("<h", 6, 8)}
     got = {}
@@ -274,7 +366,7 @@ def rule_r2(ctx) -> List[R.Inst]:
                                                   "each event is 4 bytes: a package body is 4 * event_count bytes",
                                                   construct=unparse(ep[0]) if ep else ""))
     # note events
-    nf = M.fn(PKG + ".read_events_note")
+    nf = _o2j_fn(ctx, PKG + ".read_events_note")
     iv = None
     for n in walk_no_nested(nf.node):
         if isinstance(n, ast.For) and isinstance(n.target, ast.Name):
@@ -315,7 +407,7 @@ def rule_r2(ctx) -> List[R.Inst]:
                                                   "byte 2 of a note event is volume (high nibble) and pan (low nibble)",
                                                   construct=unparse(vp[0]) if vp else ""))
     # tempo events
-    bf = M.fn(PKG + ".read_events_bpm")
+    bf = _o2j_fn(ctx, PKG + ".read_events_bpm")
     f3 = M.mods[bf.mod].rel
     iv2 = None
     for n in walk_no_nested(bf.node):
@@ -357,7 +449,7 @@ def rule_r3(ctx) -> List[R.Inst]:
                         f"OJN tempo channel is 1 and measure-fraction channel 0; found {bpm_ch} / {frac_ch}",
                         construct=f"BPM_CHANGE={bpm_ch}, MEASURE_FRACTION={frac_ch}"))
     # dispatch in read_event_packages: COL_RANGE -> notes with column = channel - COL_RANGE.start; BPM_CHANGE -> tempo
-    fn = M.fn(PKG + ".read_event_packages")
+    fn = _o2j_fn(ctx, PKG + ".read_event_packages")
     f2 = M.mods[fn.mod].rel
     calls = {call_name(n): n for n in ast.walk(fn.node) if isinstance(n, ast.Call) and call_name(n) in
              ("read_events_note", "read_events_bpm")}
@@ -412,7 +504,7 @@ def rule_r3(ctx) -> List[R.Inst]:
                  R.viol(rid, "note-types", f3, M.cls(CONST).node.lineno,
                         f"OJN note types are 0 (normal), 2 (long-note head), 3 (long-note tail); found {types}", construct=repr(types)))
     # branches of read_events_note use each constant once, in the right role
-    nf = M.fn(PKG + ".read_events_note")
+    nf = _o2j_fn(ctx, PKG + ".read_events_note")
     roles = {}
     for n in walk_no_nested(nf.node):
         if isinstance(n, ast.If) and isinstance(n.test, ast.Compare) and unparse(n.test.left) == "note_type" and \
@@ -435,7 +527,7 @@ def rule_r3(ctx) -> List[R.Inst]:
 def rule_r4(ctx) -> List[R.Inst]:
     M = ctx.M
     rid = "C07.R4"
-    nf = M.fn(PKG + ".read_events_note")
+    nf = _o2j_fn(ctx, PKG + ".read_events_note")
     file = M.mods[nf.mod].rel
     buf = [p for p in params_of(nf.node) if "buffer" in p]
     if len(buf) != 1:
@@ -469,7 +561,7 @@ def rule_r4(ctx) -> List[R.Inst]:
     else:
         insts.append(R.undec(rid, "hold-buffer:key", file, nf.node.lineno, f"{len(stores)} stores / {len(pops)} pops on the hold buffer"))
     # the buffer outlives a package: created outside the package loop, passed to every call
-    fn = M.fn(PKG + ".read_event_packages")
+    fn = _o2j_fn(ctx, PKG + ".read_event_packages")
     created = [n for n in fn.node.body if isinstance(n, (ast.Assign, ast.AnnAssign)) and
                unparse(n.targets[0] if isinstance(n, ast.Assign) else n.target) == "hold_buffer"]
     inner = [n for n in ast.walk(fn.node) if isinstance(n, (ast.For, ast.While)) for s in ast.walk(n)
@@ -490,7 +582,7 @@ def rule_r5(ctx) -> List[R.Inst]:
     rid = "C07.R5"
     insts = []
     for meth, var in (("read_events_note", "sub_measure"), ("read_events_bpm", None)):
-        fn = M.fn(f"{PKG}.{meth}")
+        fn = _o2j_fn(ctx, f"{PKG}.{meth}")
         file = M.mods[fn.mod].rel
         iv = next((n.target.id for n in walk_no_nested(fn.node) if isinstance(n, ast.For) and isinstance(n.target, ast.Name)), "i")
         ec = local_defs(fn.node, "event_count")
@@ -538,7 +630,7 @@ def rule_r6(ctx) -> List[R.Inst]:
     """Engler contradiction: a variable that may be None / falsy is ordered inside a branch guarded by its own falsiness."""
     M = ctx.M
     rid = "C07.R6"
-    fn = M.fn(MAP + ".read_pkgs")
+    fn = _o2j_fn(ctx, MAP + ".read_pkgs", closures=True)
     file = M.mods[fn.mod].rel
     none_vars = set()
     for n in walk_no_nested(fn.node):
@@ -612,7 +704,7 @@ def rule_r7(ctx) -> List[R.Inst]:
                             "not every difficulty's packages become a chart (filtered, conditional or missing append)",
                             construct="O2JMapSet.read level loop"))
     # read_event_packages: one list per level count
-    fn = M.fn(PKG + ".read_event_packages")
+    fn = _o2j_fn(ctx, PKG + ".read_event_packages")
     f2 = M.mods[fn.mod].rel
     outer = [n for n in fn.node.body if isinstance(n, ast.For)]
     from .c17 import _branch_paths
@@ -645,7 +737,7 @@ def rule_r8(ctx) -> List[R.Inst]:
     """read_pkgs: offsets come from the measure table; formula shapes; header tempo first"""
     M = ctx.M
     rid = "C07.R8"
-    fn = M.nfn(MAP + ".read_pkgs", closures=True)
+    fn = _o2j_fn(ctx, MAP + ".read_pkgs", closures=True)
     file = M.mods[fn.mod].rel
     insts = []
     # (a) integration steps have shape 4 * d(measure) / bpm minutes
@@ -773,7 +865,7 @@ def rule_r9(ctx) -> List[R.Inst]:
     measure with interleaved slots stay out of order"""
     M = ctx.M
     rid = "C07.R9"
-    fn = M.fn(MAP + ".read_pkgs")
+    fn = _o2j_fn(ctx, MAP + ".read_pkgs", closures=True)
     file = M.mods[fn.mod].rel
     # the flattened event list: NAME = [e for pkg in <pkgs> for e in pkg.events]
     flat = None
@@ -909,7 +1001,7 @@ def rule_r10(ctx) -> List[R.Inst]:
     last note too — so every tempo point gets its time"""
     M = ctx.M
     rid = "C07.R10"
-    fn = M.nfn(MAP + ".read_pkgs", closures=True)
+    fn = _o2j_fn(ctx, MAP + ".read_pkgs", closures=True)
     file = M.mods[fn.mod].rel
     insts = []
     fors = [n for n in fn.node.body if isinstance(n, ast.For)]
